@@ -117,7 +117,7 @@ Qed.
 
 Lemma Inv6_step : forall s e, Inv6 s -> Inv6 (step s e).
 Proof.
-  intros s e I. destruct e as [i o|i| |k| |]; unfold step; cbn [step_].
+  intros s e I. destruct e as [i o|i| |k| |]; rewrite step_fixed; cbn [step_].
   - destruct (up s); [|exact I]. destruct (get_thread i (threads s)) eqn:E; [exact I|].
     unfold Inv6. cbn. rewrite map_app. cbn. apply NoDup_snoc; [exact I|]. apply get_thread_none_iff. exact E.
   - destruct (get_thread i (threads s)) as [[|m rest]|]; try exact I. apply Inv6_exec. exact I.
@@ -151,7 +151,7 @@ Qed.
 
 Lemma Inv5_step : forall s e, Inv5 s -> Inv5 (step s e).
 Proof.
-  intros s e I. unfold Inv5 in *. destruct e as [i o|i| |k| |]; unfold step; cbn [step_].
+  intros s e I. unfold Inv5 in *. destruct e as [i o|i| |k| |]; rewrite step_fixed; cbn [step_].
   - destruct (up s); [|exact I]. destruct (get_thread i (threads s)); exact I.
   - destruct (get_thread i (threads s)) as [[|m rest]|] eqn:Hth; try exact I.
     destruct (exec_live_change true s i m rest) as [_ [E|[(g & n & f & Hf & E)|[(t & E & _ & Hnone & _)|(t & E & _)]]]]; rewrite E.
@@ -586,7 +586,7 @@ Qed.
 Lemma StableQ_step : forall s e, InvB s -> StableQ s -> ev_quiet e -> StableQ (step s e).
 Proof.
   intros s e [I1 I5 I6] HS He.
-  destruct e as [j o|j| |k| |]; unfold step; cbn [step_].
+  destruct e as [j o|j| |k| |]; rewrite step_fixed; cbn [step_].
   - (* EStart *)
     destruct (up s) eqn:Hup; [|exact HS].
     destruct (get_thread j (threads s)); [exact HS|].
@@ -753,7 +753,7 @@ Qed.
 
 Lemma Pre_step_self : forall s, InvB s -> Pre s -> Pre (step s (EStep i)).
 Proof.
-  intros s [I1 I5 I6] (Hna & Hq & Hph). unfold step. cbn [step_].
+  intros s [I1 I5 I6] (Hna & Hq & Hph). rewrite step_fixed. cbn [step_].
   destruct Hph as [H|H|g H H1|H H1|j0 H H1 H2 H3 H4|H]; rewrite H.
   - (* MEnter *)
     cbn [exec]. unfold lock_free. destruct (lock s) eqn:El; [split; [exact Hna|split; [exact Hq|apply Ph0; exact H]]|].
@@ -790,7 +790,7 @@ Proof.
   2:{ right. apply StableQ_step; [exact IB|exact HS|]. destruct e; cbn in *; tauto. }
   destruct e as [j o|j| |k| |].
   - (* EStart *)
-    left. destruct He as [Hne Ho]. unfold step. cbn [step_].
+    left. destruct He as [Hne Ho]. rewrite step_fixed. cbn [step_].
     destruct (up s); [|exact HP]. destruct (get_thread j (threads s)) eqn:Hgj; [exact HP|].
     destruct HP as (Hna & Hq & Hph). split; [exact Hna|split].
     + intros k q Hin Hk. cbn in Hin. apply in_app_or in Hin. destruct Hin as [Hin|[Hin|[]]]; [eapply Hq; eauto|].
@@ -806,10 +806,10 @@ Proof.
       * apply PhDead. rewrite Hgi. exact H.
   - (* EStep *)
     left. destruct (N.eqb_spec j i) as [->|Hne]; [apply Pre_step_self; assumption|].
-    unfold step. cbn [step_]. destruct (get_thread j (threads s)) as [[|m rest]|] eqn:Hget; try exact HP.
+    rewrite step_fixed. cbn [step_]. destruct (get_thread j (threads s)) as [[|m rest]|] eqn:Hget; try exact HP.
     apply Pre_step_other; assumption.
   - (* ETask *)
-    left. unfold step. cbn [step_]. destruct (lock s) eqn:Hl; [exact HP|]. destruct (pending s) eqn:Hp; [exact HP|].
+    left. rewrite step_fixed. cbn [step_]. destruct (lock s) eqn:Hl; [exact HP|]. destruct (pending s) eqn:Hp; [exact HP|].
     destruct HP as (Hna & Hq & Hph). split; [exact Hna|split; [exact Hq|]].
     destruct Hph as [H|H|g H H1|H H1|j0 H H1 H2 H3 H4|H].
     + apply Ph0. exact H.
@@ -819,7 +819,7 @@ Proof.
     + congruence.
     + apply PhDead. exact H.
   - (* EPersist *)
-    unfold step. cbn [step_]. destruct (lock s) as [j|] eqn:Hl; [|left; exact HP].
+    rewrite step_fixed. cbn [step_]. destruct (lock s) as [j|] eqn:Hl; [|left; exact HP].
     destruct IB as [I1 I5 I6]. destruct HP as (Hna & Hq & Hph).
     destruct (persist_step_frame s j k) as (Elive & Eacks & Eup).
     assert (Hother : forall p0, get_thread i (threads s) = p0 ->
@@ -864,10 +864,10 @@ Proof.
     + left. destruct (Hother _ H) as [A B]; [intros rest; discriminate|].
       split; [unfold not_acked; rewrite Eacks; exact Hna|split; [exact B|apply PhDead; exact A]].
   - (* EKill *)
-    left. unfold step. cbn [step_]. destruct (up s); [|exact HP]. destruct HP as (Hna & Hq & Hph).
+    left. rewrite step_fixed. cbn [step_]. destruct (up s); [|exact HP]. destruct HP as (Hna & Hq & Hph).
     split; [exact Hna|split; [intros k q []|apply PhDead; reflexivity]].
   - (* ERestart *)
-    left. unfold step. cbn [step_]. destruct (up s || broken s) eqn:E; [exact HP|]. destruct HP as (Hna & Hq & Hph).
+    left. rewrite step_fixed. cbn [step_]. destruct (up s || broken s) eqn:E; [exact HP|]. destruct HP as (Hna & Hq & Hph).
     assert (G : forall s', acks s' = acks s -> threads s' = [] -> Pre s').
     { intros s' Ea Et. split; [unfold not_acked; rewrite Ea; exact Hna|split; [intros k q Hin; rewrite Et in Hin; contradiction|]].
       apply PhDead. rewrite Et. reflexivity. }
